@@ -3,9 +3,10 @@ import os, re
 from vf.common import Harness, dump_image
 
 LEVEL = "model_checking"
-TECHNIQUE = "CBMC bounded symbolic execution of re.c yr_re_fast_exec on the real code emitted by the real compiler for hex templates (all data up to N bytes), against a token-level reference matcher; unwind bounds derived from the template"
+TECHNIQUE = "CBMC bounded symbolic execution of scan.c _yr_scan_verify_chained_string_match (re-joining of split patterns, all delivery sequences in the bound) and of re.c yr_re_fast_exec on the real code emitted by the real compiler for hex templates (all data up to N bytes), against a token-level reference matcher; unwind bounds derived from the template"
 ASSUMPTIONS = ["program dimension: hex templates without alternatives (bytes, ??, ?X, X?, ~XX, ~?X, [n], [n-m]); patterns with alternatives run on the full regex VM (yr_re_exec) whose symbolic execution is intractable (DESIGN P7) - outside",
-               "forward matching from the pattern start (atom at the start of the template); chained (split) patterns are outside this round",
+               "forward matching from the pattern start (atom at the start of the template)",
+               "split patterns: the re-joining step (H3) is checked on a 3-piece chain for every sequence of 4 (thorough: 5) piece occurrences delivered in scanner order (ascending end position, every piece being its own atom); the splitting itself (yr_re_ast_split_at_chaining_point) and the search for each piece through the regex VM are outside",
                "data <= 6 bytes"]
 LEVEL_TEXT = "Bounded model checking of the fast matcher against the documented hex semantics for every data buffer in the bound, per template."
 LEVEL_NOTE = "; ".join(ASSUMPTIONS)
@@ -72,6 +73,25 @@ def fast_h(name, pat, N):
 def harnesses(ctx, tier):
     N = 6      # 7 bytes: the jump templates run out of memory at 12 GB
     hs = [fast_h(n, p, N) for n, p in TEMPLATES]
+    def chain_h(K, seq):
+        digits = [(seq // 3 ** k) % 3 for k in range(K)]
+        return Harness(name="H3_chain_rejoin_k%d_%s" % (K, "".join(str(d + 1) for d in digits)), src="c02/chain.c",
+                       defines=["-DVF_K=%d" % K, "-DVF_SEQ=%d" % seq], unwind=14, timeout=900 if K > 4 else 300, mem_gb=8,
+                       unwind_funcs={"rec:_yr_scan_update_match_chain_length": 4},
+                       desc="re-joining of a split pattern S1<-S2<-S3: _yr_scan_verify_chained_string_match fed occurrences of pieces %s (in scanner order, any offsets/lengths/gap bounds) vs the documented occurrences of the whole pattern (shortest completion)" % ",".join("S%d" % (d + 1) for d in digits),
+                       bounds="%d deliveries, 3 pieces of 1-2 bytes, gap bounds 0..5, offsets < 10" % K,
+                       functions=["_yr_scan_verify_chained_string_match", "_yr_scan_update_match_chain_length", "_yr_scan_add_match_to_list", "_yr_scan_remove_match_from_list"],
+                       stubs=["yr_notebook_alloc -> malloc", "yr_get_configuration_uint32 -> max match data 8"])
+
+    def has_chain(K, seq):
+        i = 0
+        for k in range(K):
+            if (seq // 3 ** k) % 3 == i:
+                i += 1
+        return i >= 3
+    hs += [chain_h(4, q) for q in range(81)]
+    if tier == "thorough":
+        hs += [chain_h(5, q) for q in range(243) if has_chain(5, q)]
     if tier == "thorough":
         for n, p in THOROUGH:
             h = fast_h(n, p, 6)
